@@ -4,6 +4,7 @@ package main
 
 import (
 	"fmt"
+	"go/ast"
 	"os"
 	"path/filepath"
 	"runtime/debug"
@@ -129,14 +130,28 @@ func VerifyFunction(P *Program, S *Specs, key string) (res *FuncResult) {
 				}
 			}
 			for k, e := range c.Ensures {
+				// cover: the antecedent of a conditional postcondition must be reachable
+				if ce, ok := e.Expr.(*ast.CallExpr); ok {
+					if id, ok := ce.Fun.(*ast.Ident); ok && id.Name == "implies" && len(ce.Args) == 2 {
+						ante := sc.evalBool(ce.Args[0])
+						co := x.oblige("cover", e.Tags, And(out.pc, ante), TFalse, fn.Pos(), "reachable: "+exprString(ce.Args[0]))
+						co.IsCanary = true
+						co.Name = fmt.Sprintf("%s/cover#%d", x.Key, k+1)
+						if e.Label != "" {
+							co.Name = fmt.Sprintf("%s/cover#%s", x.Key, e.Label)
+						}
+					}
+				}
 				g := sc.evalBool(e.Expr)
 				o := x.oblige("ensures", e.Tags, out.pc, g, fn.Pos(), e.Text)
+				o.Reveal = e.Reveal
 				o.Name = fmt.Sprintf("%s/ensures#%d", x.Key, k+1)
 				if e.Label != "" {
 					o.Name = fmt.Sprintf("%s/ensures#%s", x.Key, e.Label)
 				}
 			}
 		}
+		x.frameCheck(f0, out)
 		o := x.oblige("canary", nil, out.pc, TFalse, fn.Pos(), "the exit of the function is reachable under its preconditions")
 		o.IsCanary = true
 	}
@@ -162,6 +177,17 @@ func (x *Exec) assumeGlobals(f *frame, st *State) {
 func (o *Obligation) SMT() string {
 	x := o.Exec
 	var s Script
+	saved := x.reveal
+	if len(o.Reveal) > 0 {
+		x.reveal = map[string]bool{}
+		for k, b := range saved {
+			x.reveal[k] = b
+		}
+		for _, r := range o.Reveal {
+			x.reveal[r] = true
+		}
+	}
+	defer func() { x.reveal = saved }()
 	goal := []*Term{o.PC}
 	if !o.IsCanary {
 		goal = append(goal, Not(o.Goal))
@@ -174,6 +200,18 @@ func (o *Obligation) SMT() string {
 	}
 	s.Asserts = append(s.Asserts, goal...)
 	s.Defs = x.specFuncDefs
+	if !o.IsCanary && !o.relaxed {
+		s.Raw = func(used map[string]bool) string {
+			var b strings.Builder
+			for _, ra := range x.S.RawAxioms {
+				if used[ra.Need] {
+					b.WriteString("(assert " + ra.Text + ")\n")
+					x.note("axiom (lemma, see " + ra.Src + "): " + ra.Need)
+				}
+			}
+			return b.String()
+		}
+	}
 	return s.String(x.inputs)
 }
 
